@@ -293,6 +293,8 @@ class HttpParser(abc.ABC, Generic[_MsgT]):
         # Stop emitting messages once this many are queued unconsumed (0 = off).
         self._max_msg_queue_size = max_msg_queue_size
         self._msg_in_flight = 0
+        # The last message asked for the connection to be closed.
+        self._should_close = False
 
     @abc.abstractmethod
     def parse_message(self, lines: list[bytes]) -> _MsgT: ...
@@ -347,7 +349,7 @@ class HttpParser(abc.ABC, Generic[_MsgT]):
         # head by max_field_size - wherever the read boundaries fall.
         max_line_length = self.max_field_size if self._lines else self.max_line_size
 
-        should_close = False
+        should_close = self._should_close
         while start_pos < data_len or self._payload_has_more_data:
             # read HTTP message (request/response line + headers), \r\n\r\n
             # and split by lines
@@ -520,7 +522,7 @@ class HttpParser(abc.ABC, Generic[_MsgT]):
                         messages.append((msg, payload))
                         if self._max_msg_queue_size:
                             self._msg_in_flight += 1
-                        should_close = msg.should_close
+                        should_close = self._should_close = msg.should_close
                 else:
                     self._tail = data[start_pos:]
                     # A bare LF here means CRLF was required:
